@@ -161,8 +161,10 @@ def visit_column_comment(
     )
 
     return ddl.format(
-        table_name=element.table_name,
-        column_name=element.column_name,
+        table_name=format_table_name(
+            compiler, element.table_name, element.schema
+        ),
+        column_name=format_column_name(compiler, element.column_name),
         comment=comment,
     )
 
